@@ -27,10 +27,20 @@ CFG = {
     "rule": "seeded generator of staged programs (signals, memos, 1-2 effects per stage, some effects writing an output signal read by later stages) x "
             "histories of set/read/poll <i>/idle ops where `poll i` polls the i-th ready task of the controlled executor (any schedule); observable = "
             "the tracked values each effect run read, the polled task and the ready list after every op; oracle at idle points = every effect's last run "
-            "saw the current from-scratch values; glitch oracle at every read inside an effect run; trivial = tag `plain` only",
-    "trusted": ["hx_common::sched controlled executor standing in for any executor (tasks polled one at a time on one thread)"],
-    "modelled": ["Effect::new task loop", "EffectInner", "channel.rs (set flag + waker)", "signal writes from inside effects"],
-    "assumptions": ["Effect::new, new_sync, new_isomorphic, watch (dependency function; handler inert) and RenderEffect::new are driven; ImmediateEffect and Selector are not", "single-threaded executor"],
+            "saw the current from-scratch values; glitch oracle at every read inside an effect run; trivial = tag `plain` only. "
+            "A quarter of the cases are `selector` cases: reactive_graph::computed::Selector::new over a signal / memo / small expression with 1-4 keys "
+            "(values 0..K, K = no key), readers = effects of every constructor, render effects, memos, dynamic reads, created before AND after the "
+            "selection moves (`sellate`), keys first read while selected and deselected later (`selfirst`), keys never selected (`selnever`), polls in "
+            "non-FIFO order (`nonfifo`); oracle: at idle a reader saw `source() == key` computed from scratch THROUGH the selector, and every `selected` "
+            "answer equals key == last source value. Half of all cases carry `acc` (accessor / memo-constructor / split-signal variety), some `memoc` leaves",
+    "trusted": ["hx_common::sched controlled executor standing in for any executor (tasks polled one at a time on one thread)",
+                "lean/LeptosModel/Model/ReactiveDriver.lean desugars `sel K e` into K flag signals + one render effect (no model change); `woke=` lists the wake-ups "
+                "made by one selector run sorted (the code walks a hash map of keys), `eruns=` shows a selector run's source reads once"],
+    "modelled": ["Effect::new task loop", "EffectInner", "channel.rs (set flag + waker)", "signal writes from inside effects",
+                 "by correspondence only: computed/selector.rs Selector::new + selected (per-key trigger = flag signal, RenderEffect::new_isomorphic = render effect), "
+                 "accessor / constructor / handle-family variety"],
+    "assumptions": ["Effect::new, new_sync, new_isomorphic, watch (dependency function; handler inert), RenderEffect::new and Selector::new are driven; ImmediateEffect and Selector::new_with_fn / remove / clear are not", "single-threaded executor",
+                    "selector cases contain no pause / resume / dispose ops (a selector is not owner-scoped; an owner created under a paused root inherits `paused`, which the model's per-effect flag does not follow)"],
     "manifest": {
         "category": "proof",
         "text": "PROVED: C02_effects_converge_readonly - for every well-formed program (tracked reads), every history of writes/reads/polls in ANY polling order, at every idle "
